@@ -138,7 +138,11 @@ def validate(
         else:
             continue
         if validator.field is not None:
-            alias = getattr(get_alias(validator.owner), get_field_name(validator.field))
+            field_name = get_field_name(validator.field)
+            try:  # the validated class can alias an inherited field differently
+                alias = getattr(get_alias(obj.__class__), field_name)
+            except AttributeError:
+                alias = getattr(get_alias(validator.owner), field_name)
             err = ValidationError(children={aliaser(alias): err})
         error = merge_errors(error, err)
         if validator.discard:
